@@ -3,7 +3,8 @@
     Cbor/CborSchema.v (derive-generated codecs), Cbor/TokenSchemas.v, Cbor/TokenAmount.v. *)
 From Coq Require Import NArith ZArith List Bool String.
 From CB Require Import Cbor.CborCore Cbor.CborProofs Cbor.CborTotal Cbor.CborNorm
-  Cbor.CborSchema Cbor.SchemaProofs Cbor.TokenSchemas Cbor.TokenAmount Cbor.TokenAmountProofs.
+  Cbor.CborSchema Cbor.SchemaProofs Cbor.SchemaTyping Cbor.SchemaRoundtrip Cbor.TokenSchemas Cbor.TokenRoundtrip
+  Cbor.TokenAmount Cbor.TokenAmountProofs Gen.CborSchemas Cbor.GenTie.
 Import ListNotations.
 Local Open Scope N_scope.
 
@@ -85,6 +86,37 @@ Print Assumptions decode_accepts_only_whole_input.
 
 (** ** Derive-generated codecs (all schemas) *)
 
+(** Round trip for EVERY well-formed schema and every well-typed value, under both decoding options:
+    [cbor_decode (cbor_encode x) = x].  ([schema_wfb]: distinct keys / variant names / tags, valid names, ...;
+    [typedb]: [x] is a value of the type, embedded generic values and the catch-all map in deterministic order.) *)
+Theorem schema_roundtrip : forall s x o, schema_wfb s = true -> typedb s x = true ->
+  exists bs, encode_typed s x = Some bs /\ decode_typed s o bs = Some x.
+Proof. exact typed_roundtrip. Qed.
+Print Assumptions schema_roundtrip.
+
+(** ... stated on items: the decoder applied to the normal form (maps in deterministic order) of what the
+    encoder writes returns the value; this is where the entry sort of the map encoder is absorbed
+    (the field-assignment loop is invariant under permutations of entries with distinct keys). *)
+Theorem schema_roundtrip_item : forall s x o mk, schema_wfb s = true -> typedb s x = true ->
+  exists v, senc s x = Some v /\ value_okb v = true /\ sdec o s mk (norm v) = Some x.
+Proof. exact schema_roundtrip_norm. Qed.
+Print Assumptions schema_roundtrip_item.
+
+(** the schema terms of all protocol-level-token types are well-formed, so the theorem covers operations,
+    events, reject reasons, module state, metadata and amounts *)
+Theorem token_ops_roundtrip : forall name s x o, In (name, s) token_schemas -> typedb s x = true ->
+  exists bs, encode_typed s x = Some bs /\ decode_typed s o bs = Some x.
+Proof. exact token_types_roundtrip. Qed.
+Print Assumptions token_ops_roundtrip.
+
+(** the hand-written schema terms are the ones the translator regenerates from the Rust declarations
+    (#[derive(CborSerialize, CborDeserialize)] with cbor(key, tag, map, tagged, transparent, other)) on every run *)
+Theorem generated_schemas_match :
+  map snd gen_schemas = map (fun p => schema_of (fst p)) gen_schemas
+  /\ forallb (fun p => existsb (String.eqb (fst p)) (map fst gen_schemas)) token_schemas = true.
+Proof. exact gen_tie. Qed.
+Print Assumptions generated_schemas_match.
+
 (** A missing mandatory field is an error. *)
 Theorem missing_mandatory_field_rejected : forall o fields other i entries mk k s,
   In (k, s) fields -> null_of s = None ->
@@ -157,10 +189,19 @@ Theorem token_amount_exponent_checked : forall o e m mk v,
 Proof. exact amount_exponent_rejected. Qed.
 Print Assumptions token_amount_exponent_checked.
 
-(** String form: an exact conversion from any string preserves the number it denotes
-    ([same_number m sc v d] is m * 10^d = v * 10^sc), and is rejected otherwise.  (That Display's own
-    output parses back to the same amount for decimals <= 28 is checked on boundary amounts below and on
-    every generated amount by the correspondence check; the general statement is not proved.) *)
+(** String form: Display's output parses back to the same amount (rust_decimal's maximal scale is 28;
+    beyond it from_str rejects every string) ... *)
+Theorem token_amount_display_roundtrip : forall a, amount_ok a = true -> amt_decimals a <= 28 ->
+  from_str_exact (to_string a) (amt_decimals a) = Some a.
+Proof. exact display_roundtrip. Qed.
+Print Assumptions token_amount_display_roundtrip.
+
+Theorem token_amount_display_beyond_scale : forall s d, 28 < d -> from_str_exact s d = None.
+Proof. exact display_beyond_scale_rejected. Qed.
+Print Assumptions token_amount_display_beyond_scale.
+
+(** ... and an exact conversion from any string preserves the number it denotes
+    ([same_number m sc v d] is m * 10^d = v * 10^sc), and is rejected otherwise. *)
 Theorem token_amount_denotation : forall s d a neg m sc,
   parse_decimal s = Some (neg, m, sc) -> from_str_exact s d = Some a ->
   amt_decimals a = d /\ same_number m sc (amt_value a) d /\ (neg = false \/ m = 0).
@@ -195,6 +236,16 @@ Example unknown_operation_nonvacuous :
   = Some (XList [XUnknown (VMap false [(VText (bytes_of_string "freeze"), VMap false [])])]).
 Proof. reflexivity. Qed.
 Print Assumptions unknown_operation_nonvacuous.
+
+Example schema_roundtrip_nonvacuous :
+  schema_wfb s_TokenModuleState = true /\
+  typedb s_TokenModuleState
+    (XStruct [XSome (XText [84; 75]); XNone; XNone; XSome (XBool true); XNone; XNone; XNone; XNone]
+             [(VText [97], VMap false [(VPos 1, VNull); (VPos 2, VArray false [])]); (VText [122; 122], VNeg 4)]) = true /\
+  typedb s_TokenOperations
+    (XList [XKnown (XVariant 7 (XStruct [] [])); XUnknown (VMap false [(VText [102], VPos 1)])]) = true.
+Proof. repeat split; vm_compute; reflexivity. Qed.
+Print Assumptions schema_roundtrip_nonvacuous.
 
 Example amount_nonvacuous :
   from_str_exact (to_string {| amt_value := 12300; amt_decimals := 3 |}) 3 = Some {| amt_value := 12300; amt_decimals := 3 |}
